@@ -224,7 +224,14 @@ def oracle(c, obs):
             return None if obs[-1][1] == (F(cnt) / F(unit) if unit else 0) else "bar length is not count/unit"
         st = obs[0]
         if not ok:
-            return None if isinstance(st, Err) else "set_meter accepted a beat unit that is not a power of two"
+            if not isinstance(st, Err):
+                return "set_meter accepted a beat unit that is not a power of two"
+            # a refused meter leaves the bar as it was: 4/4, one whole note long, and the next placement lands in that bar
+            after = obs[1]
+            if isinstance(after, Err) or after[1][5] != [4, F(4)] or after[1][1] != 1:
+                return "a refused set_meter changed the bar (meter %s, length %s afterwards)" % (
+                    ("?", "?") if isinstance(after, Err) else (after[1][5], after[1][1]))
+            return None
         if isinstance(st, Err):
             return "set_meter rejected a power-of-two beat unit"
         return None if st[1][1] == (F(cnt) / F(unit) if unit else 0) else "length after set_meter is not count/unit"
